@@ -178,3 +178,74 @@ func triggerCandidates(body string, bound []string) []string {
 	}
 	return keep
 }
+
+// stripPatterns removes (! body :pattern ...) annotations.
+func stripPatterns(n *sx) *sx {
+	if n.list == nil {
+		return n
+	}
+	if len(n.list) >= 2 && n.list[0].list == nil && n.list[0].atom == "!" {
+		return stripPatterns(n.list[1])
+	}
+	m := &sx{}
+	for _, c := range n.list {
+		m.list = append(m.list, stripPatterns(c))
+	}
+	return m
+}
+
+// dedupGoal simplifies a proof goal: quantified specification clauses are emitted twice (once plain, once with
+// generated triggers — the same formula), which helps when the clause is a hypothesis but doubles the work when it
+// is (a positive part of) the goal. In positive positions "(and Q Q')" with Q' == Q up to patterns becomes Q.
+func dedupGoal(formula string) string {
+	n := parseSx(formula)
+	if n == nil {
+		return formula
+	}
+	var dd func(n *sx, pol int) *sx
+	dd = func(n *sx, pol int) *sx {
+		if n.list == nil || len(n.list) == 0 || n.list[0].list != nil {
+			return n
+		}
+		h := n.list[0].atom
+		switch h {
+		case "and":
+			if pol > 0 && len(n.list) == 3 && n.list[1].String() != n.list[2].String() && stripPatterns(n.list[1]).String() == stripPatterns(n.list[2]).String() {
+				return dd(n.list[1], pol)
+			}
+			fallthrough
+		case "or":
+			m := &sx{list: []*sx{n.list[0]}}
+			for _, c := range n.list[1:] {
+				m.list = append(m.list, dd(c, pol))
+			}
+			return m
+		case "not":
+			if len(n.list) == 2 {
+				return &sx{list: []*sx{n.list[0], dd(n.list[1], -pol)}}
+			}
+		case "=>":
+			m := &sx{list: []*sx{n.list[0]}}
+			for i, c := range n.list[1:] {
+				if i == len(n.list)-2 {
+					m.list = append(m.list, dd(c, pol))
+				} else {
+					m.list = append(m.list, dd(c, -pol))
+				}
+			}
+			return m
+		case "forall", "exists":
+			if len(n.list) == 3 {
+				return &sx{list: []*sx{n.list[0], n.list[1], dd(n.list[2], pol)}}
+			}
+		case "!":
+			if len(n.list) >= 2 {
+				m := &sx{list: []*sx{n.list[0], dd(n.list[1], pol)}}
+				m.list = append(m.list, n.list[2:]...)
+				return m
+			}
+		}
+		return n
+	}
+	return dd(n, 1).String()
+}
